@@ -45,7 +45,7 @@ META = {
                     "interpreter logs are compared only for programs whose first steps are well defined"],
     "probes": ["hashseed_differs", "order_differs", "history_nonempty", "history_raises", "fortran_compared",
                "interp_compared", "same_description_objects_used_before",
-               "user_types_name_their_own_index_variables"],
+               "user_types_name_their_own_index_variables", "instrumented_module_text", "state_update_hooks"],
  },
  "C14": {
     "level": "exploration",
@@ -148,8 +148,15 @@ def run_c15(ctx):
         default_index_vars = tape.chance(0.4, "default_index_vars")
     if default_index_vars:
         ctx.count("probe:user_types_name_their_own_index_variables")
+    with tape.span("f_options"):
+        f_options = {"instrumented": tape.chance(0.35, "instrumented")}
+        f_options["hooks"] = tape.chance(0.5, "hooks") if f_options["instrumented"] else tape.chance(0.15, "hooks")
+    if f_options["instrumented"]:
+        ctx.count("probe:instrumented_module_text")
+    if f_options["hooks"]:
+        ctx.count("probe:state_update_hooks")
     base = {"type": "c15", "py_values": py_values, "f_values": f_values, "want_interp": want_interp,
-            "id_salt": id_salt, "py_kw": py_kw, "default_index_vars": default_index_vars}
+            "id_salt": id_salt, "py_kw": py_kw, "default_index_vars": default_index_vars, "f_options": f_options}
     # a few more small multi-phase programs with guarded switches, Python text only (cheap)
     with tape.span("extra_py"):
         extra = []
